@@ -352,6 +352,28 @@ def edge_source():
         'Rule\tBot\t1995\t2036\t-\tOct\t1\t2:00\t0\tS',
         'Zone\tTest/BottomSave\t2:00\tBot\tT%sT',
         'Zone\tTest/Plain\t2:00\t-\tPLN',
+        # eras that end, in universal time, hours after a rule transition of the same day (east and west of Greenwich)
+        'Rule\tT\t1990\tmax\t-\tMar\tlastSun\t2:00\t1:00\tS',
+        'Rule\tT\t1990\tmax\t-\tOct\tlastSun\t3:00\t0\t-',
+        'Rule\tW\t1990\tmax\t-\tApr\tSun>=1\t2:00\t1:00\tD',
+        'Rule\tW\t1990\tmax\t-\tOct\tlastSun\t2:00\t0\tS',
+        'Zone\tTest/UntilUtcEast\t2:00\tT\tEE%sT\t2005\tOct\t30\t2:00u',
+        '\t\t\t3:00\t-\tMSK',
+        'Zone\tTest/UntilUtcWest\t-5:00\tW\tE%sT\t2008\tOct\t26\t5:00u',
+        '\t\t\t-6:00\t-\tCST',
+        # a policy adopted while its daylight saving of the year before is still on: the rule in force at the start of the era
+        # ends before the era begins, another rule of the policy ends in the era's first year
+        'Rule\tQ\t1990\tmax\t-\tMar\tlastSun\t2:00\t1:00\tS',
+        'Rule\tQ\t1990\tmax\t-\tOct\tlastSun\t3:00\t0\t-',
+        'Rule\tPA\t1996\t2004\t-\tMar\tlastSun\t2:00\t1:00\tS',
+        'Rule\tPA\t1996\t2003\t-\tOct\tlastSun\t3:00\t0\t-',
+        'Rule\tPA\t2005\tonly\t-\tOct\tlastSun\t3:00\t0\t-',
+        'Rule\tPA\t2006\tmax\t-\tMar\tlastSun\t2:00\t1:00\tS',
+        'Rule\tPA\t2006\tmax\t-\tOct\tlastSun\t3:00\t0\t-',
+        'Zone\tTest/Adopt2005\t2:00\tQ\tEE%sT\t2005',
+        '\t\t\t2:00\tPA\tEE%sT',
+        'Zone\tTest/Adopt2005Jun\t2:00\tQ\tEE%sT\t2005\tJun\t1',
+        '\t\t\t2:00\tPA\tEE%sT',
     ]
 
 
